@@ -423,6 +423,11 @@ func propC20(c *Ctx) {
 		}
 	}
 
+	rrd := c.Rule("registry-dir", "each conversion function falls back to the registry table of its own direction (ToObject and ToObjectAlt: registry.ToObject; ToInterface: registry.ToInterface)", 3)
+	ruleRegistryDir(c, rrd)
+	rlc := c.Rule("loop-cover", "every iteration of a container arm's element loop stores the converted element or returns an error: no element is skipped", 4)
+	ruleLoopCover(c, rlc)
+
 	// ---- errors ----------------------------------------------------------------------------
 	re := c.Rule("errors", "the default arm of ToObject and ToObjectAlt reports an error for unsupported types", 2)
 	for _, cf := range []*convFunc{toObj, toAlt} {
